@@ -37,6 +37,8 @@ FRONT_END_ERRORS += ["%s x\n" % t for t in _NO_START] + ["print(1)\nx := (%s)\n"
 
 
 def run(rep, tier):
+    from .. import scale
+    scale.run(rep, PROP, tier)          # size ladders (seedverif/scale.py): the entries that concern this property
     rng = core.rng_for(PROP)
     descs = []
     reps = 1 if tier == "quick" else 12
@@ -79,7 +81,7 @@ def run(rep, tier):
         if o.crashed or o.code != 103 or o.out or not d.ok or d.stack or d.func:
             rep.violation("C17/front-end", "lexical/parse error is not one located line with exit 103: exit %s stderr %r" % (o.code, o.err[:200]),
                           {"src": t, "observed": o.brief()})
-        elif judge.internal_identifier(d.msg):
+        elif judge.internal_identifier(d.msg, t):
             rep.violation("C17/front-end-internal", "message exposes an internal identifier: %r" % d.msg, {"src": t, "observed": o.brief()})
     # the script path is echoed exactly as given, in the header and in every stack-trace line
     from .. import printer as P, model as M
